@@ -309,8 +309,8 @@ func (i ItemCollection) Equals(with Item) bool {
 				if used[j] || IsNil(wit) {
 					continue
 				}
-				// members that carry an id are matched by it, members without one by their contents
-				if lnk := it.GetLink(); len(lnk) > 0 && len(wit.GetLink()) > 0 {
+				// a bare IRI stands for whatever carries that id; two embedded members are compared in full
+				if lnk := it.GetLink(); (IsIRI(it) || IsIRI(wit)) && len(lnk) > 0 && len(wit.GetLink()) > 0 {
 					found = lnk.Equals(wit.GetLink(), false)
 				} else {
 					found = ItemsEqual(it, wit)
